@@ -118,6 +118,21 @@ class VecVal:
         return "VecVal(%r)" % (self.items,)
 
 
+class ByteArr(VecVal):
+    """the UTF-8 bytes of an (immutable) str, remembering the code points:
+    items = byte terms, chars = code-point terms, starts[i] = byte offset of
+    char i (len(chars)+1 entries).  Treated as immutable, shared by clones."""
+
+    __slots__ = ("chars", "starts")
+
+
+class BytesRef(StrRef):
+    """`&[u8]` obtained from `str::as_bytes`, kept lazy (code points) until
+    somebody looks at individual bytes."""
+
+    __slots__ = ()
+
+
 class MapVal:
     """HashMap / HashSet as an association list (keys compared structurally)."""
 
@@ -128,10 +143,11 @@ class MapVal:
 
 
 class FnVal:
-    __slots__ = ("info",)
+    __slots__ = ("info", "closure")
 
-    def __init__(self, info):
+    def __init__(self, info, closure=False):
         self.info = info
+        self.closure = closure  # fn pointer made from a non-capturing closure
 
 
 class Obj:
@@ -176,7 +192,7 @@ def clone_value(v, memo):
             memo[k] = r
             r.f = [clone_value(x, memo) for x in v.f]
         return r
-    if t is StrRef or t is FnVal:
+    if t is StrRef or t is FnVal or t is BytesRef or t is ByteArr:
         return v
     if t is StrBuf:
         return StrBuf(v.chars)
@@ -354,6 +370,13 @@ class Program:
             d = json.load(f)
         self.fns = d["fns"]
         self.types = {int(k): v for k, v in d["types"].items()}
+        for i, t in list(self.types.items()):
+            seen = 0
+            while t["k"] == "pat" and seen < 5:
+                inner = self.types[t["of"]]
+                t = dict(inner, s_=t.get("s_"), pat_of=t["of"])
+                seen += 1
+            self.types[i] = t
         self.vtables = d["vtables"]
         self.statics = d.get("statics", {})
         self.roots = {r["name"].split("::")[-1]: r for r in d["roots"]}
@@ -417,6 +440,7 @@ class State:
         self.emits = []
         self.cover = []
         self.statics = {}  # name -> Cell
+        self.bytes_cache = {}
         self.pos = 0  # statement index to resume at inside the current block
         self.dlog = []  # summary decisions taken so far in the current statement
         self.end = None
@@ -434,6 +458,7 @@ class State:
         s.cover = list(self.cover)
         s.pos = self.pos
         s.dlog = list(self.dlog)
+        s.bytes_cache = {k: clone_cell(c, memo) for k, c in self.bytes_cache.items()}
         s.statics = {k: clone_cell(c, memo) for k, c in self.statics.items()}
         for fr in self.frames:
             nf = Frame(fr.fn, fr.body, [clone_cell(c, memo) for c in fr.locals], None, fr.ret_bb)
@@ -641,11 +666,25 @@ class Machine:
             return Loc(cell, ())
         path = ()
         special = None
+        types = self.p.types
+        tid = fr.body["locals"][local]
+        variant = None
         for e in proj:
             if e == "deref":
+                t = types.get(tid) if tid is not None else None
+                if t is not None:
+                    if t["k"] in ("ref", "ptr"):
+                        tid = t["to"]
+                    elif t["k"] == "adt" and t.get("is_box") and t["targs"]:
+                        tid = t["targs"][0]
+                    else:
+                        tid = None
+                variant = None
                 v = self.read_loc(Loc(cell, path, special))
                 special = None
                 v = self.unwrap_ptr(v)
+                if type(v) is BytesRef:
+                    v = self.materialize_bytes(v.chars)
                 if isinstance(v, Ptr):
                     cell, path = v.cell, v.path
                     if v.meta is not None and v.meta[0] == "slice":
@@ -656,10 +695,37 @@ class Machine:
                     raise Unsupported("deref of %r" % (v,))
                 continue
             k = e[0]
+            if special is not None and special[0] in ("vec_buf", "vec_len", "str_len", "str_buf"):
+                # further projections below a virtual Vec/String field (RawVec internals)
+                if k == "f":
+                    continue
+                raise Unsupported("projection %r below virtual %s" % (e, special[0]))
             if k == "f":
-                path = path + (e[1],)
+                t = types.get(tid) if tid is not None else None
+                tn = t.get("name") if t is not None and t["k"] == "adt" else None
+                if tn == "std::vec::Vec":
+                    # std's optimised MIR reads Vec fields directly (inlined deref/len)
+                    if special is not None and special[0] == "str_vec":
+                        special = ("str_len",) if e[1] == 1 else ("str_buf",)
+                    else:
+                        special = ("vec_len",) if e[1] == 1 else ("vec_buf",)
+                    tid = e[2]
+                    continue
+                if tn == "std::string::String" and e[1] == 0:
+                    special = ("str_vec",)
+                    tid = e[2]
+                    continue
+                if t is not None and t["k"] == "coroutine":
+                    slot = self.coroutine_slot(t, variant, e[1], e[2])
+                    if slot is None:
+                        return Loc(Cell(Agg(e[2], 0, [])), ())
+                    path = path + (slot,)
+                else:
+                    path = path + (e[1],)
+                tid = e[2]
+                variant = None
             elif k == "dc":
-                pass
+                variant = e[1]
             elif k == "idx":
                 i = fr.locals[e[1]].v
                 i = self.index_value(i)
@@ -691,10 +757,42 @@ class Machine:
                 end = (n - to) if from_end else to
                 special = ("slice", start + frm, end - frm)
             elif k == "opaque":
-                pass
+                tid = e[1]
             else:
                 raise Unsupported("projection %r" % (e,))
+            if k in ("idx", "cidx"):
+                t = types.get(tid) if tid is not None else None
+                tid = t.get("of") if t is not None else None
         return Loc(cell, path, special)
+
+    def coroutine_slot(self, t, variant, idx, fty):
+        size = self.p.types[fty].get("size") if fty is not None else None
+        if size == 0:
+            return None
+        if variant is None:
+            off = t["prefix_offsets"][idx]
+        else:
+            off = t["variant_offsets"][variant][idx]
+        slots = t.setdefault("_slots", {})
+        key = (off, size)
+        s = slots.get(key)
+        if s is None:
+            s = len(slots)
+            slots[key] = s
+            if s >= 96:
+                raise Unsupported("coroutine with more than 96 saved slots")
+        return s
+
+    def new_coroutine(self, tid, upvars):
+        t = self.p.types[tid]
+        a = Agg(tid, 0, [None] * 96)
+        utys = t.get("upvar_tys") or []
+        for i, v in enumerate(upvars):
+            fty = utys[i] if i < len(utys) else None
+            slot = self.coroutine_slot(t, None, i, fty)
+            if slot is not None:
+                a.f[slot] = v
+        return a
 
     def index_value(self, i):
         if is_sym(i):
@@ -717,9 +815,15 @@ class Machine:
         v = loc.cell.v
         for i in loc.path:
             t = type(v)
+            if i == "map" or i == "mapkey":
+                v = ("mapslot", v, 1 if i == "map" else 0)
+                continue
+            if t is tuple and v and v[0] == "mapslot":
+                v = v[1].entries[i][v[2]]
+                continue
             if t is Agg:
                 v = v.f[i]
-            elif t is VecVal:
+            elif t is VecVal or t is ByteArr:
                 if not (0 <= i < len(v.items)):
                     raise PathEnd("panic", "index out of bounds")
                 v = v.items[i]
@@ -728,27 +832,64 @@ class Machine:
             else:
                 raise Unsupported("projection into %s" % type(v).__name__)
         if loc.special is not None:
-            if loc.special[0] == "str":
+            sk = loc.special[0]
+            if sk == "str":
                 return v
+            if sk == "vec_len":
+                if not isinstance(v, VecVal):
+                    raise Unsupported("Vec.len of %r" % (v,))
+                n = 0
+                for x in v.items:
+                    if isinstance(x, tuple) and x[0] == "ch":
+                        n = n + self.utf8_len(x[1]) if isinstance(n, int) and isinstance(self.utf8_len(x[1]), int) \
+                            else simp(bv(n, 64) + bv(self.utf8_len(x[1]), 64))
+                    else:
+                        n = n + 1 if isinstance(n, int) else simp(n + 1)
+                return n
+            if sk == "vec_buf":
+                return Ptr(loc.cell, loc.path + (0,))
+            if sk == "str_len":
+                return self.str_byte_len(v.chars)
+            if sk == "str_buf":
+                sp = self.materialize_bytes(tuple(v.chars))
+                return Ptr(sp.cell, sp.path + (0,))
+            if sk == "str_vec":
+                return BytesRef(tuple(v.chars))
             # a slice pseudo-location is only meaningful under & / len
             return ("slice_place", loc)
         return v
 
     def write_loc(self, loc, val):
         if loc.special is not None:
-            raise Unsupported("write to unsized place")
+            if loc.special[0] == "vec_len":
+                v = self.read_loc(Loc(loc.cell, loc.path))
+                n = self.index_value(val)
+                if n <= len(v.items):
+                    del v.items[n:]
+                else:
+                    v.items.extend([None] * (n - len(v.items)))
+                return
+            raise Unsupported("write to unsized/virtual place")
         if not loc.path:
             loc.cell.v = val
             return
         v = loc.cell.v
         if v is None:
-            raise Unsupported("write into field of uninitialised value")
+            v = loc.cell.v = Agg(None, 0, [])
         for i in loc.path[:-1]:
             t = type(v)
+            if i == "map" or i == "mapkey":
+                v = ("mapslot", v, 1 if i == "map" else 0)
+                continue
+            if t is tuple and v and v[0] == "mapslot":
+                v = v[1].entries[i][v[2]]
+                continue
             if t is Agg:
+                if i >= len(v.f):
+                    v.f.extend([None] * (i + 1 - len(v.f)))
                 nxt = v.f[i]
                 if nxt is None:
-                    raise Unsupported("write into field of uninitialised field")
+                    nxt = v.f[i] = Agg(None, 0, [])
                 v = nxt
             elif t is VecVal:
                 v = v.items[i]
@@ -756,7 +897,11 @@ class Machine:
                 raise Unsupported("write projection into %s" % t.__name__)
         i = loc.path[-1]
         t = type(v)
-        if t is Agg:
+        if t is tuple and v and v[0] == "mapslot":
+            v[1].entries[i][v[2]] = val
+        elif t is Agg:
+            if i >= len(v.f):
+                v.f.extend([None] * (i + 1 - len(v.f)))
             v.f[i] = val
         elif t is VecVal:
             if not (0 <= i < len(v.items)):
@@ -907,6 +1052,8 @@ class Machine:
                     b = z3.ZeroExt(w - b.size(), b)
             else:
                 b = b % w
+        if not (is_sym(a) or isinstance(a, int)) or not (is_sym(b) or isinstance(b, int)):
+            raise Unsupported("binop %s on %r, %r" % (op, a, b))
         x = bv(a, w)
         y = bv(b, w)
         if op in ("Add", "AddUnchecked"):
@@ -1043,6 +1190,20 @@ class Machine:
         if op in ("Eq", "Ne"):
             same = self.same_ptr(a, b)
             return same if op == "Eq" else (not same)
+        if op == "Offset":
+            if type(a) is BytesRef:
+                a = self.materialize_bytes(a.chars)
+                a = Ptr(a.cell, a.path + (0,))
+            if not isinstance(a, Ptr) or not a.path:
+                raise Unsupported("Offset on %r" % (a,))
+            n = self.index_value(b)
+            if n >= (1 << 63):
+                n -= 1 << 64
+            return Ptr(a.cell, a.path[:-1] + (a.path[-1] + n,), a.meta)
+        if op in ("Lt", "Le", "Gt", "Ge") and isinstance(a, Ptr) and isinstance(b, Ptr):
+            if a.cell is b.cell and a.path[:-1] == b.path[:-1] and a.path and b.path:
+                x, y = a.path[-1], b.path[-1]
+                return {"Lt": x < y, "Le": x <= y, "Gt": x > y, "Ge": x >= y}[op]
         raise Unsupported("pointer binop " + op)
 
     def same_ptr(self, a, b):
@@ -1142,8 +1303,91 @@ class Machine:
             t = t + s
         return simp(t)
 
+    def utf8_encode(self, c):
+        """bytes of code point c (forks on the UTF-8 length class)"""
+        if isinstance(c, int):
+            return list(chr(c).encode("utf-8")) if not (0xD800 <= c <= 0xDFFF) else [0xEF, 0xBF, 0xBD]
+        if self.decide(z3.ULT(c, 0x80), "utf8-1"):
+            return [simp(z3.Extract(7, 0, c))]
+        if self.decide(z3.ULT(c, 0x800), "utf8-2"):
+            return [simp(z3.Extract(7, 0, 0xC0 | z3.LShR(c, 6))), simp(z3.Extract(7, 0, 0x80 | (c & 0x3F)))]
+        if self.decide(z3.ULT(c, 0x10000), "utf8-3"):
+            return [simp(z3.Extract(7, 0, 0xE0 | z3.LShR(c, 12))),
+                    simp(z3.Extract(7, 0, 0x80 | (z3.LShR(c, 6) & 0x3F))), simp(z3.Extract(7, 0, 0x80 | (c & 0x3F)))]
+        return [simp(z3.Extract(7, 0, 0xF0 | z3.LShR(c, 18))), simp(z3.Extract(7, 0, 0x80 | (z3.LShR(c, 12) & 0x3F))),
+                simp(z3.Extract(7, 0, 0x80 | (z3.LShR(c, 6) & 0x3F))), simp(z3.Extract(7, 0, 0x80 | (c & 0x3F)))]
+
+    def materialize_bytes(self, chars):
+        """-> slice Ptr over a ByteArr holding the UTF-8 bytes of chars"""
+        st = self.state
+        key = tuple(c if isinstance(c, int) else ("z", c.get_id()) for c in chars)
+        cell = st.bytes_cache.get(key)
+        if cell is None:
+            items = []
+            starts = []
+            for c in chars:
+                starts.append(len(items))
+                items.extend(self.utf8_encode(c))
+            starts.append(len(items))
+            ba = ByteArr(items)
+            ba.chars = tuple(chars)
+            ba.starts = starts
+            cell = Cell(ba)
+            st.bytes_cache[key] = cell
+        return Ptr(cell, (), ("slice", 0, len(cell.v.items)))
+
+    def bytes_to_str(self, v):
+        """slice pointer over bytes -> StrRef (value of a `&str`)"""
+        if isinstance(v, StrRef):
+            return StrRef(v.chars)
+        if not isinstance(v, Ptr) or v.meta is None or v.meta[0] != "slice":
+            raise Unsupported("bytes->str of %r" % (v,))
+        cont = self.read_loc(Loc(v.cell, v.path))
+        start, n = v.meta[1], v.meta[2]
+        if type(cont) is ByteArr:
+            try:
+                i = cont.starts.index(start)
+                j = cont.starts.index(start + n)
+            except ValueError:
+                raise Unsupported("str slice of bytes not on a char boundary")
+            return StrRef(cont.chars[i:j])
+        if isinstance(cont, VecVal):
+            items = cont.items[start:start + n]
+            out = []
+            raw = []
+            for x in items:
+                if isinstance(x, tuple) and x[0] == "ch":
+                    if raw:
+                        out.extend(ord(ch) for ch in bytes(raw).decode("utf-8"))
+                        raw = []
+                    out.append(x[1])
+                elif isinstance(x, int):
+                    raw.append(x)
+                else:
+                    raise Unsupported("bytes->str over symbolic raw bytes")
+            if raw:
+                out.extend(ord(ch) for ch in bytes(raw).decode("utf-8"))
+            return StrRef(out)
+        raise Unsupported("bytes->str of %r" % (cont,))
+
     def cast(self, kind, v, dst, src, extra):
         p = self.p
+        if type(v) is BytesRef and kind in ("PtrToPtr", "Transmute", "MutToConstPointer"):
+            dt0 = p.types[dst]
+            to0 = p.types.get(dt0.get("to")) if dt0.get("to") is not None else None
+            if to0 is not None and to0["k"] == "str":
+                return StrRef(v.chars)
+            v = self.materialize_bytes(v.chars)
+        if kind in ("PtrToPtr", "Transmute") and isinstance(v, Ptr) and v.meta is not None and v.meta[0] == "slice":
+            dt0 = p.types[dst]
+            to0 = p.types.get(dt0.get("to")) if dt0.get("to") is not None else None
+            if to0 is not None and to0["k"] == "str":
+                return self.bytes_to_str(v)
+        if kind in ("PtrToPtr", "Transmute") and type(v) is StrRef:
+            dt0 = p.types[dst]
+            to0 = p.types.get(dt0.get("to")) if dt0.get("to") is not None else None
+            if to0 is not None and to0["k"] == "slice":
+                return BytesRef(v.chars)
         if kind in ("IntToInt", "Transmute") and src is not None:
             si = p.scalar_info(src)
             di = p.scalar_info(dst)
@@ -1173,6 +1417,18 @@ class Machine:
             # same-representation transmutes (newtype <-> inner, ptr <-> ptr)
             st = p.types[src] if src is not None else None
             dt = p.types[dst]
+            if dt["k"] == "adt" and dt["name"] == "std::option::Option" and (isinstance(v, int) or is_sym(v)) \
+                    and "NonZero" in dt.get("s_", ""):
+                # integer -> Option<NonZero<_>> (niche at 0)
+                if self.decide(v_eq(v, 0), "niche-zero"):
+                    return Agg(dst, 0, [])
+                inner_ty = dt["variants"][1]["fields"][0]["ty"]
+                return Agg(dst, 1, [self.wrap_newtype(inner_ty, v)])
+            if st is not None and st["k"] == "adt" and st["name"] == "std::option::Option" and isinstance(v, Agg) \
+                    and "NonZero" in st.get("s_", "") and dt["k"] == "int":
+                if v.var == 0:
+                    return 0
+                return self.unwrap_newtype(v.f[0])
             if isinstance(v, (Ptr, StrRef, FnVal)):
                 if dt["k"] in ("ptr", "ref", "fnptr"):
                     return v
@@ -1186,19 +1442,62 @@ class Machine:
             if dt["k"] == "adt" and isinstance(v, int) or is_sym(v):
                 return self.wrap_newtype(dst, v)
             raise Unsupported("transmute %s -> %s" % (p.tyname(src) if src is not None else "?", p.tyname(dst)))
+        if kind == "PtrToPtr" and isinstance(v, Ptr) and v.meta is not None and v.meta[0] == "slice":
+            dt = p.types[dst]
+            to = p.types.get(dt.get("to")) if dt.get("to") is not None else None
+            if to is not None and to["k"] not in ("slice", "str", "dyn"):
+                return Ptr(v.cell, v.path + (v.meta[1],))
+            return v
+        if kind == "PtrToPtr" and isinstance(v, Ptr) and src is not None and v.meta is None:
+            st_ = p.types[src]
+            dt = p.types[dst]
+            s_to, d_to = st_.get("to"), dt.get("to")
+            path = v.path
+            hops = 0
+            while s_to is not None and d_to is not None and s_to != d_to and hops < 6:
+                tt = p.types[s_to]
+                if tt["k"] != "adt" or tt["adt"] != "struct":
+                    break
+                nz = [(i, f) for i, f in enumerate(tt["variants"][0]["fields"])
+                      if f["ty"] is not None and p.types[f["ty"]].get("size") != 0]
+                if len(nz) != 1:
+                    break
+                # only descend when the destination type is nested inside
+                if not self.type_contains_first(nz[0][1]["ty"], d_to):
+                    break
+                path = path + (nz[0][0],)
+                s_to = nz[0][1]["ty"]
+                hops += 1
+            if path is not v.path:
+                return Ptr(v.cell, path)
+            return v
         if kind in ("PtrToPtr", "MutToConstPointer", "FnPtrToPtr", "Subtype"):
             return v
         if kind == "Unsize":
             return self.unsize(v, dst, src, extra)
         if kind.startswith("ReifyFnPointer") or kind.startswith("ClosureFnPointer"):
             if extra and "fnptr" in extra:
-                return FnVal(extra["fnptr"])
+                return FnVal(extra["fnptr"], closure=kind.startswith("ClosureFnPointer"))
             raise Unsupported("fn pointer cast without resolution")
         if kind == "UnsafeFnPointer":
             return v
         if kind in ("PointerExposeAddress", "PointerWithExposedProvenance"):
             raise Unsupported("pointer<->integer cast")
         raise Unsupported("cast " + kind)
+
+    def type_contains_first(self, tid, target, depth=6):
+        while depth > 0:
+            if tid == target:
+                return True
+            t = self.p.types[tid]
+            if t["k"] != "adt" or t["adt"] != "struct":
+                return False
+            nz = [f for f in t["variants"][0]["fields"] if f["ty"] is not None and self.p.types[f["ty"]].get("size") != 0]
+            if len(nz) != 1:
+                return False
+            tid = nz[0]["ty"]
+            depth -= 1
+        return False
 
     def wrap_newtype(self, tid, inner):
         t = self.p.types[tid]
@@ -1225,7 +1524,7 @@ class Machine:
         while isinstance(v, Agg):
             nz = [x for x in v.f if not (isinstance(x, Agg) and not x.f)]
             if len(nz) != 1:
-                raise Unsupported("transmute out of multi-field aggregate")
+                raise Unsupported("transmute out of multi-field aggregate %r" % (v,))
             v = nz[0]
         return v
 
@@ -1293,17 +1592,42 @@ class Machine:
             if kk == "tuple":
                 return Agg(None, 0, vals)
             if kk == "adt":
+                tn = self.p.types[kind[1]].get("name")
+                if tn == "std::vec::Vec":
+                    # inlined Vec::new(): {buf: RawVec(dangling), len: 0}
+                    if vals and vals[-1] == 0:
+                        return VecVal()
+                    raise Unsupported("field-wise construction of a non-empty Vec")
+                if tn == "std::string::String":
+                    inner = vals[0]
+                    if isinstance(inner, VecVal):
+                        return StrBuf(self.bytes_to_str(Ptr(Cell(inner), (), ("slice", 0, len(inner.items)))).chars)
+                    raise Unsupported("field-wise construction of String from %r" % (inner,))
                 return Agg(kind[1], kind[2], vals)
-            if kk in ("closure", "coroutine"):
-                a = Agg(kind[1], 0, vals)
-                return a
+            if kk == "coroutine":
+                return self.new_coroutine(kind[1], vals)
+            if kk == "closure":
+                return Agg(kind[1], 0, vals)
             if kk == "array":
                 return VecVal(vals)
             if kk == "rawptr":
                 p, meta = vals
+                p = self.unwrap_ptr(p) if isinstance(p, Agg) else p
+                if is_sym(meta):
+                    meta = self.concretize(meta, 64, what="slice length")
                 if isinstance(p, Ptr):
                     if isinstance(meta, int):
-                        return Ptr(p.cell, p.path, ("slice", 0, meta))
+                        if p.path and isinstance(p.path[-1], int):
+                            try:
+                                cont = self.read_loc(Loc(p.cell, p.path[:-1]))
+                            except (Unsupported, PathEnd):
+                                cont = None
+                            if isinstance(cont, VecVal):
+                                return Ptr(p.cell, p.path[:-1], ("slice", p.path[-1], meta))
+                        tgt = self.read_loc(Loc(p.cell, p.path))
+                        if isinstance(tgt, VecVal):
+                            return Ptr(p.cell, p.path, ("slice", 0, meta))
+                        raise Unsupported("slice from raw parts over %r" % (tgt,))
                     return p
                 raise Unsupported("rawptr aggregate")
             raise Unsupported("aggregate " + kk)
@@ -1360,6 +1684,9 @@ class Machine:
         if body is None:
             raise Unsupported("no MIR body for %s (kind %s)" % (f["name"], f["kind"]))
         argc = body["argc"]
+        if f.get("rust_call") and body["spread"] is None and args and isinstance(args[-1], Agg):
+            # closure body called with (env, (args...)): untuple
+            args = args[:-1] + list(args[-1].f)
         if len(args) != argc:
             # rust-call ABI: untuple the last argument / re-tuple for spread_arg
             if body["spread"] is not None:
@@ -1403,6 +1730,10 @@ class Machine:
             if not isinstance(fv, FnVal):
                 raise Unsupported("indirect call through %r" % (fv,))
             finfo = fv.info
+            if fv.closure:
+                args = [self.operand(fr, a) for a in argops]
+                args = [Agg(None, 0, []), Agg(None, 0, args)]
+                return self.invoke(st, fr, finfo, args, dest, target)
         if "unresolved" in finfo:
             raise Unsupported("unresolved callee " + finfo.get("name", "?"))
         args = [self.operand(fr, a) for a in argops]
@@ -1427,18 +1758,27 @@ class Machine:
                 args = [thin] + args[1:]
             finfo = ent
         s = self.fn_summary(finfo)
+        if s is None:
+            f0 = self.p.fns.get(finfo.get("fn"))
+            if f0 is not None and f0.get("body") is None and f0.get("kind") == "item":
+                ctor = self.try_ctor(f0, args)
+                if ctor is not None:
+                    self.write_loc(self.place_loc(fr, dest), ctor)
+                    fr.bb = target
+                    return
+        if self.trace:
+            print("%sCALL %s %r" % ("  " * len(st.frames), finfo.get("name", "?")[:100], args), file=sys.stderr)
         dloc = self.place_loc(fr, dest)
         if s is not None:
             name = finfo.get("def") or finfo.get("name")
             d = self.stats.summaries_used
             d[name] = d.get(name, 0) + 1
             r = s(self, st, finfo, args)
+            if r is NotImplemented:
+                self.push_call(st, finfo, args, (dloc.cell, dloc.path), target)
+                return
             if isinstance(r, TailCall):
-                # summary asks to run a MIR function (e.g. closure call) and
-                # deliver its result (optionally post-processed) to dest
-                self.push_call(st, r.info, r.args, (dloc.cell, dloc.path), target)
-                if r.then is not None:
-                    st.frames[-1].pending = r.then
+                self.tail(st, r, (dloc.cell, dloc.path), target)
                 return
             if target is None:
                 raise PathEnd("diverged", "summary returned into a diverging call")
@@ -1446,6 +1786,47 @@ class Machine:
             fr.bb = target
             return
         self.push_call(st, finfo, args, (dloc.cell, dloc.path), target)
+
+    def tail(self, st, r, dest, target):
+        """a summary asked to run function r.info(r.args) and pass the result
+        through r.then (which may ask for another call) before delivering it to
+        dest / continuing at target in the current top frame."""
+        while True:
+            s = self.fn_summary(r.info)
+            if s is None:
+                self.push_call(st, r.info, r.args, dest, target)
+                st.frames[-1].pending = r.then
+                return
+            v = s(self, st, r.info, r.args)
+            if isinstance(v, TailCall):
+                if r.then is not None:
+                    raise Unsupported("nested tail calls with continuation")
+                r = v
+                continue
+            if r.then is not None:
+                v = r.then(self, st, v)
+                if isinstance(v, TailCall):
+                    r = v
+                    continue
+            if target is None:
+                raise PathEnd("diverged", "tail call into diverging call")
+            if dest is not None:
+                self.write_loc(Loc(dest[0], dest[1]), v)
+            st.frames[-1].bb = target
+            st.pos = 0
+            return
+
+    def try_ctor(self, f, args):
+        """tuple-struct / tuple-variant constructor used as a function"""
+        rt = f.get("ret_ty")
+        t = self.p.types.get(rt) if rt is not None else None
+        if t is None or t["k"] != "adt":
+            return None
+        last = f["name"].split("::")[-1]
+        for i, v in enumerate(t["variants"]):
+            if v["name"] == last and len(v["fields"]) == len(args):
+                return Agg(rt, i, list(args))
+        return None
 
     def step_block(self, st):
         fr = st.frames[-1]
@@ -1478,9 +1859,10 @@ class Machine:
                 if isinstance(v, Agg):
                     if v.var != s[2]:
                         t = self.p.types.get(v.ty)
-                        n = len(t["variants"][s[2]]["fields"]) if t and t["k"] == "adt" else len(v.f)
                         v.var = s[2]
-                        v.f = (v.f + [None] * n)[:n] if t and t["k"] == "adt" else v.f
+                        if t and t["k"] == "adt":
+                            n = len(t["variants"][s[2]]["fields"])
+                            v.f = (v.f + [None] * n)[:n]
                 else:
                     raise Unsupported("setdiscr on %r" % (v,))
             elif k == "assume":
@@ -1511,8 +1893,14 @@ class Machine:
         elif k == "ret":
             pend = fr.pending
             if pend is not None:
+                r = pend(self, st, fr.locals[0].v)
+                if isinstance(r, TailCall):
+                    dest, ret_bb = fr.dest, fr.ret_bb
+                    st.frames.pop()
+                    self.tail(st, r, dest, ret_bb)
+                    return
                 fr.pending = None
-                fr.locals[0].v = pend(self, st, fr.locals[0].v)
+                fr.locals[0].v = r
             self.do_return(st)
         elif k == "drop":
             fr.bb = t[2]
@@ -1620,6 +2008,11 @@ class Machine:
                 raise Budget("time budget exhausted")
             try:
                 self.step_block(st)
+            except PathEnd as pe:
+                if pe.kind == "panic" and st.frames and " @" not in pe.msg:
+                    fr = st.frames[-1]
+                    pe.msg = "%s @%s bb%d" % (pe.msg, fr.fn["name"][:120], fr.bb)
+                raise
             except ForkRequest as fk:
                 prefix = list(st.dlog)
                 self.stats.forks += len(fk.alts) - 1
